@@ -29,8 +29,8 @@ func c11Progs() map[string]*Prog {
 		{Name: "c1", Cmds: []C{{Call: &Ref{Task: "t", Vars: [][2]string{{"X", "one"}}}}}},
 		{Name: "c2", Cmds: []C{{Call: &Ref{Task: "t", Vars: [][2]string{{"X", "two"}}}}}},
 		{Name: "c3", Cmds: []C{{Call: &Ref{Task: "t"}}}},
-		{Name: "t", Env: [][2]string{{"EX", "{{.X}}"}}, RawLines: []string{"vars:", "  D: {sh: 'echo hello-{{.X}}'}", "  L: 'lit-{{.X}}'"},
-			Cmds: []C{{Defer: true, Extra: "defer X={{.X}}"}, {Extra: "X={{.X}} D={{.D}} L={{.L}}", ShExtra: " EX=$EX"}, {Call: &Ref{Task: "leaf", Vars: [][2]string{{"Y", "{{.X}}"}}}}}},
+		{Name: "t", Env: [][2]string{{"EX", "{{.X}}"}}, RawLines: []string{"vars:", "  D: {sh: 'echo hello-{{.X}}'}", "  DE: {sh: 'echo env-$X'}", "  L: 'lit-{{.X}}'"},
+			Cmds: []C{{Defer: true, Extra: "defer X={{.X}}"}, {Extra: "X={{.X}} D={{.D}} DE={{.DE}} L={{.L}}", ShExtra: " EX=$EX"}, {Call: &Ref{Task: "leaf", Vars: [][2]string{{"Y", "{{.X}}"}}}}}},
 		{Name: "leaf", Cmds: []C{{Extra: "Y={{.Y}}"}}},
 	}}
 	m["global-dynvar-per-task"] = &Prog{
@@ -242,6 +242,41 @@ func c11Units(tier string) []*Unit {
 		c11ConcUnit("call-vars", progs["call-vars"], []string{"c1", "c2"}, "c3", tier),
 		c11ConcUnit("global-dynvar-per-task", progs["global-dynvar-per-task"], []string{"a"}, "b", tier),
 		c11ConcUnit("matrix-ref-and-loops", progs["matrix-ref-and-loops"], []string{"m1"}, "m2", tier),
+		c11WildcardUnit(tier),
 	)
 	return us
+}
+
+// Concurrent calls of a wildcard task from one call site (a for-loop in deps) with plain,
+// template-free call variables, and a global dynamic variable that is evaluated between task
+// lookup and call-variable evaluation: every call renders its own {{.MATCH}}.
+func c11WildcardUnit(tier string) *Unit {
+	files := map[string]string{
+		"Taskfile.yml": "version: '3'\nvars:\n  G: {sh: echo g}\ntasks:\n  root:\n    deps:\n      - for: [a, b]\n        task: build-{{.ITEM}}\n        vars: {MODE: fast}\n" +
+			"  build-*:\n    cmds:\n      - printf '%s\\n' 'P|build|0|{{index .MATCH 0}}|MODE={{.MODE}} G={{.G}}'\n",
+	}
+	sc := &vlab.Scenario{Name: "conc/wildcard-for-loop-static-vars", Files: files, Calls: []vlab.CallSpec{{Task: "root"}}}
+	bound := 2
+	if tier == "thorough" {
+		bound = 3
+	}
+	return &Unit{Name: sc.Name, Sc: sc, Bound: bound, Prune: true, Weight: 3, Check: func(x *vlab.Exec) []vlab.Violation {
+		out := generic("C11", x)
+		if x.Code != 0 {
+			return append(out, vlab.V("C11", "spurious_failure", "wildcard", fmt.Sprintf("status %d (%s)", x.Code, firstN(x.ErrStr, 120))))
+		}
+		seen := map[string]int{}
+		for _, e := range vlab.ParseTrace(x.Trace) {
+			if e.K == 'S' && e.Task == "build" {
+				seen[e.VP]++
+				if e.Extra != "MODE=fast G=g" {
+					out = append(out, vlab.V("C11", "depends_on_concurrent_tasks", "wildcard:vars", fmt.Sprintf("build-%s printed %q, expected MODE=fast G=g", e.VP, e.Extra)))
+				}
+			}
+		}
+		if seen["a"] != 1 || seen["b"] != 1 || len(seen) != 2 {
+			out = append(out, vlab.V("C11", "depends_on_concurrent_tasks", "wildcard:MATCH", fmt.Sprintf("the calls build-a and build-b rendered {{.MATCH}} as %v (each must see its own match exactly once)", seen)))
+		}
+		return out
+	}}
 }
